@@ -1000,15 +1000,26 @@ func (u *Unit) convert(st *State, x Val, from, to types.Type) Val {
 		n := u.strLen(xt)
 		return u.ctx.Define("bytes", mkslice(r, IntLit(0), n, n))
 	case xt.Sort == SSlice && (ts == SStr || ts == SString):
-		// []byte -> string: a function of the bytes; only the length is exposed
-		res := u.ctx.FreshConst("str", ts)
-		u.assume(st, Eq(u.strLen(res), slen(xt)))
-		return res
+		// []byte -> string: an uninterpreted function of the byte array contents
+		return u.strOfBytes(st, xt, ts)
 	case xt.Sort == SPtr && ts == SPtr:
 		return xt
 	}
 	res := u.freshVal(st, to, "conv")
 	u.note(fmt.Sprintf("unmodelled conversion %s -> %s (result unconstrained)", from, to))
+	return res
+}
+
+// strOfBytes: string(b) as a function of the backing array value, offset and length.
+func (u *Unit) strOfBytes(st *State, b *Term, ts Sort) *Term {
+	esort := SInt
+	if u.bvMode {
+		esort = SBV8
+	}
+	m := u.heapGet(st, elemMapName(esort), esort)
+	f := u.ctx.Func("str_of_bytes!"+sanitize(string(esort))+"!"+sanitize(string(ts)), []Sort{ArrSort(SInt, esort), SInt, SInt}, ts)
+	res := u.ctx.Define("str", App(ts, f, Select(m, sarr(b)), soff(b), slen(b)))
+	u.assume(st, Eq(u.strLen(res), slen(b)))
 	return res
 }
 
